@@ -30,7 +30,7 @@ def run(rep):
         if x and o["status"] == "violated" and all(c.get("known_role") for c in x["cands"]):
             o["status"] = "holds"
             o["note"] = "only counterexample role: C08 known finding interval-flag (flag of an interval-defined Isha; not an angle-based time)"
-    if any((x["cands"] or x["inconclusive"]) for x in res if x.get("fn") == "imsaak"):
+    if any((x["cands"] or x["inconclusive"]) for x in res if x.get("fn") == "imsaak") or rep.tier == "thorough":
         from . import policyprop as pp
         if not pp.imsaak_grid(rep) and any(x["cands"] for x in res if x.get("fn") == "imsaak"):
             rep.inconclusive.append("get_imsaak counterexample not reproduced through the public API")
